@@ -88,6 +88,10 @@ func (c *CodecConn[Enc, Dec]) ReadNext() (Dec, error) {
 func (c *CodecConn[Enc, Dec]) WriteNext(item Enc) (n int, err error) {
 	err = c.codec.Encode(item, c.dst)
 	if err == nil {
+		// Some encoders (codec/frame) leave the encoded bytes in the write area: commit them, otherwise nothing is
+		// sent. This is a no-op for encoders which already committed.
+		c.dst.Commit(c.dst.WriteLen())
+
 		var nn int64
 		nn, err = c.dst.WriteTo(c.stream)
 		n = int(nn)
@@ -98,6 +102,9 @@ func (c *CodecConn[Enc, Dec]) WriteNext(item Enc) (n int, err error) {
 func (c *CodecConn[Enc, Dec]) AsyncWriteNext(item Enc, cb AsyncCallback) {
 	err := c.codec.Encode(item, c.dst)
 	if err == nil {
+		// See WriteNext.
+		c.dst.Commit(c.dst.WriteLen())
+
 		c.dst.AsyncWriteTo(c.stream, cb)
 	} else {
 		cb(err, 0)
